@@ -39,6 +39,12 @@ Theorem C04_fqsafe_idem : forall s, fqSafe (fqSafe s) = fqSafe s.
 Proof. exact fqSafe_idem. Qed.
 Print Assumptions C04_fqsafe_idem.
 
+(* the header-safe alphabet of the property statement: exactly [A-Za-z0-9_-] *)
+Theorem C04_safe_alphabet : forall c, fq_keep c = true <->
+  (c = 45 \/ 48 <= c <= 57 \/ 65 <= c <= 90 \/ c = 95 \/ 97 <= c <= 122).
+Proof. exact safe_alphabet. Qed.
+Print Assumptions C04_safe_alphabet.
+
 Theorem C04_fqsafe_fixed : forall s, safe s = true -> fqSafe s = s.
 Proof. exact fqSafe_fixed. Qed.
 Print Assumptions C04_fqsafe_fixed.
@@ -119,7 +125,10 @@ Theorem C04_end_to_end : forall t bc ia ly bi vis vrn vfc vla vti vcx vcy,
     (forall k v, In (k, v) w -> derived_key k = false -> k <> k_RG -> is_phred k = false ->
                  get k out = Some (TS (fqSafe v))) /\
     (forall k v, In (k, v) w -> derived_key k = false -> is_phred k = true ->
-                 exists p, phred_dec v = Ok p /\ get k out = Some (TS p)).
+                 exists p, phred_dec v = Ok p /\ get k out = Some (TS p)) /\
+    (* a quality tag the strategy wrote as phred_enc q returns as the original characters, saturated *)
+    (forall k q e, In (k, e) w -> derived_key k = false -> is_phred k = true -> phred_enc q = Ok e ->
+                 get k out = Some (TS (map saturate q))).
 Proof. exact chain_cell. Qed.
 Print Assumptions C04_end_to_end.
 
